@@ -278,9 +278,16 @@ theorem mutRun_spec (k : MutK) (o : Obj) (e : EP) (m : ResM (Char × Option Obj 
   | mmapFree =>
     cases o <;> simp only [mutRun, Option.some.injEq, reduceCtorEq] at hm
     subst hm; rename_i i len
-    intro f s fr h
-    simp [Obj.foot, optFoot, optOwned, Obj.owned] at h ⊢
-    exact ⟨by permg h, by permg h, NamesOk.of_eq [] rfl⟩
+    have := (by simpa using (mmapUnmap_spec i len e).frameG [] [] :
+        SpecG (R.map i len :: e.foot) [] (mmapUnmap i len e) (fun r => (if r.1 then [] else [R.map i len]) ++ r.2.foot) (fun _ => [])).map
+      (fun r => (if r.1 then 'S' else 'F', if r.1 then none else some (Obj.mmap i len), r.2))
+      (fun r => optFoot r.2.1 ++ r.2.2.foot) (fun r => optOwned r.2.1)
+      (by rintro ⟨ok, e'⟩; cases ok <;> simp [optFoot, Obj.foot]) (by rintro ⟨ok, e'⟩; cases ok <;> simp [optOwned, Obj.owned])
+    simpa [Obj.foot, Obj.owned] using this
+  | strRealloc =>
+    cases o <;> simp only [mutRun, Option.some.injEq, reduceCtorEq] at hm
+    subst hm; rename_i b
+    exact mut_cls (fun b => [R.blk b]) .str (fun _ => rfl) (fun _ => rfl) b _ (strRealloc_spec b) e
 
 /-- derivations whose source object stays as it is: `g` returns (class, payload of the new object) -/
 theorem der_keep {T : Type} (o : Obj) (hO : o.owned = []) (ft : T → List R) (C : T → Obj) (hC : ∀ t, (C t).foot = ft t)
